@@ -97,7 +97,12 @@ def harness(name, backend="spqlios-fma", kind="optim", srcs=None, extra=(), libs
             if rc != 0:
                 raise CheckBroken("harness build failed (%s, %s, %s):\n%s" % (name, backend, kind, err[-4000:]))
             os.replace(exe + ".tmp", exe)
-    _prune_files(out_dir, 80)
+        else:
+            try:
+                os.utime(exe, None)          # still in use: keep it away from the pruner of concurrent runs (the pruner goes by last use, not by build time)
+            except OSError:
+                pass
+    _prune_files(out_dir, 400)
     return exe
 
 
@@ -106,7 +111,7 @@ def _prune_files(d, keep):
         fs = [os.path.join(d, f) for f in os.listdir(d) if not f.startswith(".")]
         fs.sort(key=os.path.getmtime, reverse=True)
         for f in fs[keep:]:
-            if time.time() - os.path.getmtime(f) > 3600:
+            if time.time() - os.path.getmtime(f) > 6 * 3600:
                 os.remove(f)
     except OSError:
         pass
